@@ -423,7 +423,7 @@ class Interp:
         if isinstance(test, ast.Compare) and len(test.ops) == 1 and isinstance(test.ops[0], ast.NotEq):
             l = self.ev(test.left, env)
             r = test.comparators[0]
-            if isinstance(l, D) and l.ir == ('delay',) and isinstance(r, ast.Constant) and r.value == 0:
+            if isinstance(l, D) and has_delay(l.ir) and isinstance(r, ast.Constant) and r.value == 0:
                 return True
         return False
 
